@@ -42,11 +42,21 @@ const (
 	dNativeMark
 	dNativeStop
 	dNativeFatal
-	numDeferKinds
-	dAction // internal: the action deferred by the site
+	numDeferKinds // the kinds of the base families
+	dAction       // internal: the action deferred by the site
+	// kinds of the "pending" families: Stop/Fatal called by a deferred closure,
+	// possibly while a panic is pending or right after recover()
+	dClosureStop
+	dClosureFatal
+	dRecoverStop
+	dRecoverFatal
 )
 
-var deferNames = []string{"marker", "recover", "newpanic", "recover+newpanic", "native-mark", "native-stop", "native-fatal"}
+var deferNames = []string{"marker", "recover", "newpanic", "recover+newpanic", "native-mark", "native-stop", "native-fatal", "", "(action)",
+	"closure-stop", "closure-fatal", "recover+stop", "recover+fatal"}
+
+var baseKinds = []int{dMarker, dRecover, dNewPanic, dRecoverNewPanic, dNativeMark, dNativeStop, dNativeFatal}
+var pendingKinds = []int{dRecover, dNewPanic, dNativeStop, dNativeFatal, dClosureStop, dClosureFatal, dRecoverStop, dRecoverFatal}
 
 // sites
 const (
@@ -76,14 +86,111 @@ const (
 	aFaultDivide
 	aStop
 	aFatal
-	numActions
+	numActions // the actions of the base families
+	aShowStop  = numActions     // templates: {{ v }} of a native.EnvStringer that calls env.Stop
+	aShowFatal = numActions + 1 // the same calling env.Fatal
+	aExtra     = numActions + 2 // first of the extra runtime faults (extraFaults)
 )
+
+// extraFault is a runtime fault with variable (non-constant) operands. H. is
+// the prefix of host names. msg is a phrase of gc's message that the message
+// of the PanicError must contain.
+type extraFault struct {
+	name string
+	pre  []string
+	stmt string
+	msg  string
+}
+
+const nilDeref = "nil pointer dereference"
+
+var extraFaults = []extraFault{
+	{"index string", []string{`s := "abc"`, `i := 5`}, `_ = s[i]`, "index out of range [5] with length 3"},
+	{"index string (negative)", []string{`s := "abc"`, `i := -1`}, `_ = s[i]`, "index out of range [-1]"},
+	{"index slice read", []string{`a := []int{1, 2, 3}`, `i := 5`}, `_ = a[i]`, "index out of range [5] with length 3"},
+	{"index slice write", []string{`a := []int{1, 2, 3}`, `i := 5`}, `a[i] = 1`, "index out of range [5] with length 3"},
+	{"index slice of strings read", []string{`a := []string{"x"}`, `i := 1`}, `_ = a[i]`, "index out of range [1] with length 1"},
+	{"index slice of any write", []string{`a := []any{1}`, `i := 1`}, `a[i] = nil`, "index out of range [1] with length 1"},
+	{"index array read", []string{`var arr [3]int`, `i := 3`}, `_ = arr[i]`, "index out of range [3] with length 3"},
+	{"index array write", []string{`var arr [3]int`, `i := 3`}, `arr[i] = 1`, "index out of range [3] with length 3"},
+	{"index pointer to array read", []string{`pa := &[3]int{}`, `i := 3`}, `_ = pa[i]`, "index out of range [3] with length 3"},
+	{"index pointer to array write", []string{`pa := &[3]int{}`, `i := 3`}, `pa[i] = 1`, "index out of range [3] with length 3"},
+	{"address of slice element", []string{`a := []int{1, 2, 3}`, `i := 3`}, `_ = &a[i]`, "index out of range [3] with length 3"},
+	{"slice string", []string{`s := "abc"`, `j := 10`}, `_ = s[:j]`, "slice bounds out of range"},
+	{"slice string inverted", []string{`s := "abc"`, `i := 2`, `j := 1`}, `_ = s[i:j]`, "slice bounds out of range"},
+	{"slice slice", []string{`a := []int{1, 2, 3}`, `j := 10`}, `_ = a[:j]`, "slice bounds out of range"},
+	{"slice3 slice", []string{`a := []int{1, 2, 3}`, `k := 10`}, `_ = a[0:1:k]`, "slice bounds out of range"},
+	{"slice array", []string{`var arr [3]int`, `j := 10`}, `_ = arr[:j]`, "slice bounds out of range"},
+	{"slice3 array", []string{`var arr [3]int`, `k := 10`}, `_ = arr[0:1:k]`, "slice bounds out of range"},
+	{"slice pointer to array", []string{`pa := &[3]int{}`, `j := 10`}, `_ = pa[:j]`, "slice bounds out of range"},
+	{"assertion to concrete type", []string{`var x any = "s"`}, `_ = x.(int)`, "interface conversion"},
+	{"assertion to interface", []string{`var x any = 1`}, `_ = x.(error)`, "interface conversion"},
+	{"assertion on nil", []string{`var x any`}, `_ = x.(int)`, "interface conversion"},
+	{"assertion to host type", []string{`var x any = 1`}, `_ = x.(H.S)`, "interface conversion"},
+	{"nil map write (variable key)", []string{`var m map[string]int`, `k := "a"`}, `m[k] = 1`, "nil map"},
+	{"nil pointer read", []string{`var p *int`}, `_ = *p`, nilDeref},
+	{"nil pointer write", []string{`var p *int`, `v := 1`}, `*p = v`, nilDeref},
+	{"nil pointer field read", []string{`var p *H.S`}, `_ = p.X`, nilDeref},
+	{"nil pointer field write", []string{`var p *H.S`, `v := 1`}, `p.X = v`, nilDeref},
+	{"nil pointer nested field", []string{`p := &H.S{}`}, `_ = p.P.X`, nilDeref},
+	{"nil pointer to array index", []string{`var pa *[3]int`, `i := 0`}, `_ = pa[i]`, nilDeref},
+	{"nil func call", []string{`var f func()`}, `f()`, nilDeref},
+	{"nil interface method call", []string{`var e error`}, `_ = e.Error()`, nilDeref},
+	{"divide int", []string{`x := 7`, `z := 0`}, `_ = x / z`, "divide by zero"},
+	{"modulo int", []string{`x := 7`, `z := 0`}, `_ = x % z`, "divide by zero"},
+	{"divide uint8", []string{`var x uint8 = 7`, `var z uint8`}, `_ = x / z`, "divide by zero"},
+	{"modulo uint8", []string{`var x uint8 = 7`, `var z uint8`}, `_ = x % z`, "divide by zero"},
+	{"divide-assign int64", []string{`var x int64 = 7`, `var z int64`}, `x /= z`, "divide by zero"},
+	{"modulo-assign int16", []string{`var x int16 = 7`, `var z int16`}, `x %= z`, "divide by zero"},
+	{"close nil channel", []string{`var c chan int`}, `close(c)`, "close of nil channel"},
+	{"close closed channel", []string{`c := make(chan int)`, `close(c)`}, `close(c)`, "close of closed channel"},
+	{"send on closed channel", []string{`c := make(chan int, 1)`, `close(c)`, `v := 1`}, `c <- v`, "send on closed channel"},
+	{"make negative len", []string{`n := -1`}, `_ = make([]int, n)`, "len out of range"},
+	{"make negative cap", []string{`n := -1`}, `_ = make([]int, 0, n)`, "cap out of range"},
+	{"make chan negative", []string{`n := -1`}, `_ = make(chan int, n)`, "size out of range"},
+	{"unhashable key write", []string{`m := map[any]int{}`, `var k any = []int{1}`}, `m[k] = 1`, "unhashable type"},
+	{"unhashable key read", []string{`m := map[any]int{}`, `var k any = []int{1}`}, `_ = m[k]`, "unhashable type"},
+	{"unhashable key delete", []string{`m := map[any]int{}`, `var k any = []int{1}`}, `delete(m, k)`, "unhashable type"},
+	{"uncomparable ==", []string{`var a any = []int{1}`, `var b any = []int{1}`}, `_ = a == b`, "uncomparable type"},
+	{"slice to array pointer conversion", []string{`a := []int{1, 2}`}, `_ = (*[4]int)(a)`, "cannot convert slice with length 2"},
+}
+
+// faultCategory groups the extra faults by the instruction that faults.
+func faultCategory(a int) string {
+	n := extraFaults[a-aExtra].name
+	for _, c := range [][2]string{{"index", "index"}, {"address", "index"}, {"slice3", "slicing"}, {"slice to", "conversion"}, {"slice", "slicing"}, {"assertion", "type assertion"},
+		{"nil map", "map assignment"}, {"nil func", "nil func call"}, {"nil interface", "nil interface method"}, {"nil pointer field", "nil pointer field access"}, {"nil pointer nested", "nil pointer field access"}, {"nil pointer to array", "index through a nil pointer to array"}, {"nil pointer", "nil pointer dereference"}, {"divide", "integer division"}, {"modulo", "integer division"},
+		{"close", "channel"}, {"send", "channel"}, {"make", "make"}, {"unhashable key delete", "map delete"}, {"unhashable", "map key hashing"}, {"uncomparable", "comparison"}} {
+		if strings.HasPrefix(n, c[0]) {
+			return c[1]
+		}
+	}
+	return n
+}
+
+func actionName(a int) string {
+	switch {
+	case a < numActions:
+		return actionNames[a]
+	case a == aShowStop:
+		return "show of an EnvStringer calling Stop"
+	case a == aShowFatal:
+		return "show of an EnvStringer calling Fatal"
+	}
+	return "fault: " + extraFaults[a-aExtra].name
+}
 
 var actionNames = []string{"panic(string)", "panic(int)", "panic(host error)", "panic(custom error)", "panic(nil any)", "panic(struct)", "panic(float)", "panic(Stringer)",
 	"nil map write", "index out of range", "divide by zero", "Stop", "Fatal"}
 
 func actionClass(a int) string {
 	switch {
+	case a >= aExtra:
+		return "fault"
+	case a == aShowStop:
+		return "stop"
+	case a == aShowFatal:
+		return "fatal"
 	case a <= aPanicStringer:
 		return "panic"
 	case a <= aFaultDivide:
@@ -117,13 +224,16 @@ func (s shape) String() string {
 		}
 		fr = append(fr, "["+strings.Join(ds, ",")+"]")
 	}
-	return fmt.Sprintf("layout=%d frames=%s site=%s action=%s", s.layout, strings.Join(fr, ""), siteNames[s.site], actionNames[s.action])
+	return fmt.Sprintf("layout=%d frames=%s site=%s action=%s", s.layout, strings.Join(fr, ""), siteNames[s.site], actionName(s.action))
 }
 
 // applicable reports whether the combination exists.
 func (s shape) applicable() bool {
 	if s.site == sDeferredDirect && actionClass(s.action) == "fault" {
 		return false // a fault has no deferrable call form
+	}
+	if (s.action == aShowStop || s.action == aShowFatal) && (s.layout == lProgram || s.site != sBody) {
+		return false // the show statement exists in template bodies and macro bodies only
 	}
 	if s.layout != lProgram && s.site == sCallee {
 		return false // templates cannot declare package-level functions
@@ -212,6 +322,17 @@ func (g *gen) emitDefers(w *srcWriter, fi int, file string) {
 			w.ln("\tdefer " + g.h + "Stop()")
 		case dNativeFatal:
 			w.ln("\tdefer " + g.h + "Fatal()")
+		case dClosureStop, dClosureFatal, dRecoverStop, dRecoverFatal:
+			w.ln("\tdefer func() {")
+			if kind == dRecoverStop || kind == dRecoverFatal {
+				w.ln("\t\trecover()")
+			}
+			if kind == dClosureStop || kind == dRecoverStop {
+				w.ln("\t\t" + g.h + "Stop()")
+			} else {
+				w.ln("\t\t" + g.h + "Fatal()")
+			}
+			w.ln("\t}()")
 		}
 		fp.defers = append(fp.defers, it)
 	}
@@ -247,6 +368,17 @@ func (g *gen) actionLines() (pre []string, stmt string) {
 		return nil, g.h + "Stop()"
 	case aFatal:
 		return nil, g.h + "Fatal()"
+	case aShowStop:
+		return nil, "show StopStr"
+	case aShowFatal:
+		return nil, "show FatalStr"
+	}
+	if a := g.p.sh.action; a >= aExtra {
+		f := extraFaults[a-aExtra]
+		for _, l := range f.pre {
+			pre = append(pre, strings.ReplaceAll(l, "H.", g.h))
+		}
+		return pre, strings.ReplaceAll(f.stmt, "H.", g.h)
 	}
 	panic("bad action")
 }
@@ -471,9 +603,17 @@ func (m *model) runDeferred(it deferItem, cur *rec) *rec {
 			cur.recovered = true
 		}
 		return m.push(&rec{val: "N" + it.tag, line: it.panicLine, file: it.file})
-	case dNativeStop:
+	case dNativeStop, dClosureStop:
 		panic(modelStop{rStop})
-	case dNativeFatal:
+	case dNativeFatal, dClosureFatal:
+		panic(modelStop{rFatal})
+	case dRecoverStop, dRecoverFatal:
+		if cur != nil {
+			cur.recovered = true
+		}
+		if it.kind == dRecoverStop {
+			panic(modelStop{rStop})
+		}
 		panic(modelStop{rFatal})
 	case dAction:
 		if r := m.doAction(m.p.sh.site == sDeferredDirect); r != nil {
@@ -551,6 +691,17 @@ func (MyStr) String() string { return "myStr-msg" }
 
 type fatalValue struct{ n int }
 
+// S is a host struct type used by the nil pointer faults.
+type S struct {
+	X int
+	P *S
+}
+
+// envStringer is a native.EnvStringer whose String method ends the execution.
+type envStringer struct{ do func(native.Env) }
+
+func (e envStringer) String(env native.Env) string { e.do(env); return "" }
+
 type elem struct {
 	msg       any
 	str       string
@@ -618,12 +769,17 @@ func observe(p *plan) (o observation) {
 	fatalV := &fatalValue{1}
 	var marks []string
 	var hostErrVar error = hostErr
+	stopStr := envStringer{func(env native.Env) { env.Stop(stopErr) }}
+	fatalStr := envStringer{func(env native.Env) { env.Fatal(fatalV) }}
 	decls := native.Declarations{
 		"Mark":  func(s string) { marks = append(marks, s) },
 		"Stop":  func(env native.Env) { env.Stop(stopErr) },
 		"Fatal": func(env native.Env) { env.Fatal(fatalV) },
 		"Call":  func(f func()) { f() },
 		"Err":   &hostErrVar,
+		"S":     reflect.TypeOf(S{}),
+		"StopStr":  &stopStr,
+		"FatalStr": &fatalStr,
 		"MyErr": reflect.TypeOf(MyErr{}),
 		"MyStr": reflect.TypeOf(MyStr{}),
 	}
@@ -797,6 +953,19 @@ func messageOK(sh shape, r *rec, e elem) (bool, string) {
 			return false, "not-a-runtime.Error"
 		}
 	}
+	if sh.action >= aExtra {
+		want := extraFaults[sh.action-aExtra].msg
+		err, ok := e.msg.(error)
+		if !ok {
+			return false, "runtime-error-text"
+		}
+		if !strings.Contains(err.Error(), want) {
+			return false, "runtime-error-text"
+		}
+		if _, ok := e.msg.(runtime.Error); !ok {
+			return false, "not-a-runtime.Error"
+		}
+	}
 	if str == "" {
 		return false, "empty-String()"
 	}
@@ -859,9 +1028,10 @@ const (
 	aspChainEnd
 	aspChain
 	aspLocation
+	aspLine
 )
 
-var aspectNames = []string{"outcome", "chainend", "chain", "location"}
+var aspectNames = []string{"outcome", "chainend", "chain", "location", "line"}
 
 func evalShape(sh shape, aspect int) kit.Outcome {
 	if !sh.applicable() {
@@ -947,7 +1117,9 @@ func evalShape(sh shape, aspect int) kit.Outcome {
 			return fail("Error() [recovered] count differs from flags")
 		}
 		out.Class = fmt.Sprintf("chain of %d", len(e.chain))
-	case aspLocation:
+	case aspLocation, aspLine:
+		// Path() and Position().Line are judged in separate spaces so that a
+		// wrong path does not hide a wrong line
 		if o.kind != rPanic || e.kind != rPanic {
 			out.Nontrivial = false
 			out.Class = "no PanicError returned/expected"
@@ -967,18 +1139,23 @@ func evalShape(sh shape, aspect int) kit.Outcome {
 			what := "new-panic-in-deferred"
 			if r.action {
 				what = "action:" + actionClass(sh.action)
-			}
-			if el.path != r.file {
-				got := "other"
-				if el.path == "" {
-					got = "empty"
+				if sh.action >= aExtra {
+					what += "(" + faultCategory(sh.action) + ")"
 				}
-				if got == "empty" {
+			}
+			if aspect == aspLocation && el.path != r.file {
+				if el.path == "" && r.action && sh.action >= aExtra {
+					return fail("Path want=file-of-statement got=empty | " + what)
+				}
+				if el.path == "" {
 					return fail("Path want=file-of-statement got=empty")
 				}
-				return fail("Path want=file-of-statement got=" + got + " | " + what)
+				if k := strings.IndexByte(what, '('); k > 0 {
+					what = what[:k] // a path that is set does not depend on the kind of fault
+				}
+				return fail("Path want=file-of-statement got=other | " + what)
 			}
-			if el.line != r.line {
+			if aspect == aspLine && el.line != r.line {
 				got := "other-line"
 				if el.line == 0 {
 					got = "0"
@@ -1009,13 +1186,13 @@ func countRecovered(c []*rec) int {
 // ---- spaces ----
 
 // deferLists returns every list of defer kinds of length 0..n.
-func deferLists(n int) [][]int {
+func deferLists(n int, kinds []int) [][]int {
 	out := [][]int{{}}
 	prev := [][]int{{}}
 	for l := 1; l <= n; l++ {
 		var cur [][]int
 		for _, p := range prev {
-			for k := 0; k < numDeferKinds; k++ {
+			for _, k := range kinds {
 				cur = append(cur, append(append([]int{}, p...), k))
 			}
 		}
@@ -1027,10 +1204,12 @@ func deferLists(n int) [][]int {
 
 // frameConfigs returns every assignment of defer lists to the frames, frame f
 // having lists of length up to maxLens[f].
-func frameConfigs(maxLens ...int) [][][]int {
+func frameConfigs(maxLens ...int) [][][]int { return frameConfigsOf(baseKinds, maxLens...) }
+
+func frameConfigsOf(kinds []int, maxLens ...int) [][][]int {
 	out := [][][]int{{}}
 	for _, ml := range maxLens {
-		lists := deferLists(ml)
+		lists := deferLists(ml, kinds)
 		var cur [][][]int
 		for _, c := range out {
 			for _, l := range lists {
@@ -1059,9 +1238,37 @@ func union(cs ...[][][]int) [][][]int {
 }
 
 type family struct {
-	name   string
-	layout int
-	cfgs   [][][]int
+	name    string
+	layout  int
+	cfgs    [][][]int
+	actions []int // nil: the base actions
+	aspects []int // nil: every aspect
+}
+
+func (f family) aspectList() []int {
+	if f.aspects != nil {
+		return f.aspects
+	}
+	return []int{aspOutcome, aspChainEnd, aspChain, aspLocation, aspLine}
+}
+
+func (f family) actionList() []int {
+	if f.actions != nil {
+		return f.actions
+	}
+	return baseActions
+}
+
+var baseActions, faultActions, pendingActions []int
+
+func init() {
+	for a := 0; a < numActions; a++ {
+		baseActions = append(baseActions, a)
+	}
+	for i := range extraFaults {
+		faultActions = append(faultActions, aExtra+i)
+	}
+	pendingActions = append(append([]int{}, baseActions...), aShowStop, aShowFatal)
 }
 
 func families(tier string) []family {
@@ -1069,36 +1276,54 @@ func families(tier string) []family {
 	if tier == "thorough" {
 		two := union(frameConfigs(2, 1), frameConfigs(1, 2))
 		fs = []family{
-			{"program.frames1", lProgram, frameConfigs(3)},
-			{"program.frames2", lProgram, two},
-			{"program.frames3", lProgram, frameConfigs(1, 1, 1)},
-			{"template.frames1", lTemplate, frameConfigs(3)},
-			{"template.frames2", lTemplate, two},
-			{"template.import.frames2", lTemplateImport, frameConfigs(1, 1)},
+			{"program.frames1", lProgram, frameConfigs(3), nil, nil},
+			{"program.frames2", lProgram, two, nil, nil},
+			{"program.frames3", lProgram, frameConfigs(1, 1, 1), nil, nil},
+			{"template.frames1", lTemplate, frameConfigs(3), nil, nil},
+			{"template.frames2", lTemplate, two, nil, nil},
+			{"template.import.frames2", lTemplateImport, frameConfigs(1, 1), nil, []int{aspOutcome, aspChainEnd, aspChain, aspLocation}},
 		}
 	} else {
 		fs = []family{
-			{"program.frames1", lProgram, frameConfigs(2)},
-			{"program.frames2", lProgram, frameConfigs(1, 1)},
-			{"template.frames1", lTemplate, frameConfigs(2)},
-			{"template.frames2", lTemplate, frameConfigs(1, 1)},
-			{"template.import.frames2", lTemplateImport, frameConfigs(1, 1)},
+			{"program.frames1", lProgram, frameConfigs(2), nil, nil},
+			{"program.frames2", lProgram, frameConfigs(1, 1), nil, nil},
+			{"template.frames1", lTemplate, frameConfigs(2), nil, nil},
+			{"template.frames2", lTemplate, frameConfigs(1, 1), nil, nil},
+			{"template.import.frames2", lTemplateImport, frameConfigs(1, 1), nil, []int{aspOutcome, aspChainEnd, aspChain, aspLocation}},
 		}
 	}
+	// every runtime-fault kind with variable operands, under few defers
+	few := []int{dMarker, dRecover, dNativeMark}
+	faultCfgs := union(frameConfigsOf(baseKinds, 1), frameConfigsOf(few, 1, 1))
+	// Stop/Fatal while a panic is pending or after recover()
+	pend1, pend2 := frameConfigsOf(pendingKinds, 2), frameConfigsOf([]int{dRecover, dNativeStop, dClosureStop, dClosureFatal, dRecoverStop, dRecoverFatal}, 1, 1)
+	if tier == "thorough" {
+		faultCfgs = union(frameConfigsOf(baseKinds, 2), frameConfigsOf(baseKinds, 1, 1))
+	}
+	fs = append(fs,
+		family{"program.faults", lProgram, faultCfgs, faultActions, []int{aspOutcome, aspChain, aspLocation, aspLine}},
+		family{"template.faults", lTemplate, faultCfgs, faultActions, []int{aspOutcome, aspChain, aspLocation, aspLine}},
+		family{"template.import.faults", lTemplateImport, frameConfigsOf(few, 1, 1), faultActions, []int{aspLocation, aspLine}},
+		family{"program.pending1", lProgram, pend1, pendingActions, []int{aspOutcome}},
+		family{"program.pending2", lProgram, pend2, pendingActions, []int{aspOutcome}},
+		family{"template.pending1", lTemplate, pend1, pendingActions, []int{aspOutcome}},
+		family{"template.pending2", lTemplate, pend2, pendingActions, []int{aspOutcome}},
+	)
 	return fs
 }
 
 func shapeAt(f family, i uint64) shape {
-	d := kit.Mixed(i, numActions, numSites, uint64(len(f.cfgs)))
-	return shape{layout: f.layout, frames: f.cfgs[d[2]], site: int(d[1]), action: int(d[0])}
+	al := f.actionList()
+	d := kit.Mixed(i, uint64(len(al)), numSites, uint64(len(f.cfgs)))
+	return shape{layout: f.layout, frames: f.cfgs[d[2]], site: int(d[1]), action: al[d[0]]}
 }
 
 func spaces(tier string) []kit.Space {
 	var sps []kit.Space
 	for _, f := range families(tier) {
 		f := f
-		size := kit.Product(numActions, numSites, uint64(len(f.cfgs)))
-		for asp := range aspectNames {
+		size := kit.Product(uint64(len(f.actionList())), numSites, uint64(len(f.cfgs)))
+		for _, asp := range f.aspectList() {
 			asp := asp
 			sps = append(sps, kit.Space{
 				Name: f.name + "." + aspectNames[asp],
